@@ -121,6 +121,14 @@ CHECKS["C11"] = dict(
          "serial discipline in the RTP sender/receiver. It does not decide eventual recovery or byte identity of decoder input under loss schedules.",
     ref="DESIGN.md section 3 C11")
 
+CHECKS["C09"] = dict(
+    technique="writer/reader attribute-table extraction and set comparison; agreement of sibling serialiser/parser implementations by evaluating their asts with the checker's interpreter over an enumerated family of descriptions, candidates and fmtp dictionaries",
+    text="Decides: every line kind the two __str__ writers can emit has a branch in the matching loop of SessionDescription.parse; the DTLS role tables are mutual "
+         "inverses; on 45 generated descriptions (each optional field present/absent, all directions, roles, section kinds, legacy SCTP) serialise-parse-serialise "
+         "is a fixed point and every field is recovered; one round is idempotent on 4 foreign texts; candidate lines and the contrib signaling codec round-trip for "
+         "96 candidate shapes incl. IPv6; fmtp dictionaries round-trip for None/0/empty/'='-bearing values. Agreement on representatives, not all texts.",
+    ref="DESIGN.md section 3 C09")
+
 NOT_APPLICABLE = {
     "C06": "every clause quantifies over loss schedules, timers and the interleaving of several channels' fragments across heap queues; no "
            "clause has a structural necessary condition that is not merely a description of one implementation (DESIGN.md section 5). Its "
